@@ -394,3 +394,45 @@ def field_payload(P):
             _TzdbStreamField._read_fields = real
         return True
     return h
+
+
+def _fixed_zone_payload(idx):
+    """payload of a zone field: [pooled id idx][type 1 = fixed][offset: one byte, 48 half hours = 0][pooled name idx]"""
+    return [idx, 1, 48, idx]
+
+
+@lemma(_payload_args(4), params=["id-map"], budget=200, per_path=40,
+       bounds="a whole source built by _from_stream from [3-entry string pool 'a','b','c'][version][empty Windows mapping][one fixed zone 'a'] "
+              "and an ID-MAP field whose payload is EVERY byte string of <= 4 bytes (count, alias index, target index, ...; so also aliases "
+              "pointing at pooled strings that are no zone): constructing the source, listing ids and for_id on every listed id work or "
+              "raise InvalidPyodaDataError (the path from_stream / get_ids / for_id take)")
+def source_ids(P):
+    real = _TzdbStreamField._read_fields
+
+    def h(**kw):
+        ln = kw["ln"]
+        assume(0 <= ln <= 4)
+        bs = [kw[f"b{i}"] for i in range(4)]
+        for b in bs:
+            assume(0 <= b <= 255)
+        framed = [_Framed(0, _mini_pool_bytes()),
+                  _Framed(1, [0, 1, 48, 0]),                 # zone: pooled id 'a', fixed, offset 0, name 'a'
+                  _Framed(2, [1, 120]),                      # tzdb version "x" (inline string)
+                  _Framed(4, [0, 0, 0, 0]),                  # Windows mapping: three pooled strings 'a' and no map zones
+                  _Framed(3, bs[:int(ln)])]                  # the id map under test
+        _TzdbStreamField._read_fields = classmethod(lambda cls, stream: iter(framed))
+        try:
+            try:
+                data = _TzdbStreamData._from_stream(_HeaderStream([0, 0, 0, 0]))
+            finally:
+                _TzdbStreamField._read_fields = real
+            src = TzdbDateTimeZoneSource._ctor(data)
+            for zid in list(src.get_ids()):
+                try:
+                    src.for_id(zid)
+                except InvalidPyodaDataError:
+                    pass
+        except InvalidPyodaDataError:
+            pass
+        return True
+    return h
